@@ -331,8 +331,8 @@ def run(prog: Program, res: Result, tier: str) -> None:
                          "POSIX: a file opened with O_TRUNC and written sequentially without seeks grows by appending"]
     res.floor("O1a", 1)
     res.floor("O1b", 1)
-    res.floor("O4", 13)
-    res.floor("O2c", 13)
+    res.floor("O4", 12)
+    res.floor("O2c", 12)
     res.floor("O5", 1)
 
 
